@@ -32,12 +32,20 @@ TABLE_TEMPLATES = {
     "let_after_splice": "`{ $c + { let {B} = 10\n {B} * 3 } }",
     "fnlet_beside": "`{ { let {B} = |v| v * 2\n {B}(5) } + $c }",
     "nested_block_let": "`{ { { let {B} = 10\n {B} } + 1 } * 2 + $c }",
+    # the binder is mentioned by quoted code *inside a splice* of the template (a quotation nested in an escape)
+    "let_nested_quote": "`{ { let {B} = 10\n $(idc(`({B} * 2))) } + $c }",
+    "lambda_nested_quote": "`{ (|{B}| $(idc(`({B} + 1))))(10) + $c }",
+    "letrec_nested_quote": "`{ { letrec {B} = |n| { if (n > 0) { n + {B}(n - 1) } else { 0 } }\n $(idc(`({B}(3)))) } + $c }",
 }
 TABLE_USES = {
     "global_fn": ("fn {A}(v){ v + 100 }\n", "m!(`{A}(1))"),
     "global_let": ("let {A} = 7\n", "m!(`({A} * 1))"),
     "local_let": ("", "{ let {A} = 5\n m!(`({A} + 0)) }"),
     "local_fn": ("", "{ let {A} = |v| v + 100\n m!(`{A}(1)) }"),
+    # the name comes from a module: wildcard import, single import, qualified member next to an import
+    "wild_import_fn": ("mod k {\n  pub fn {A}(v){ v + 100 }\n}\nuse k::*\n", "m!(`{A}(1))"),
+    "use_import_fn": ("mod k {\n  pub fn {A}(v){ v + 100 }\n}\nuse k::{A}\n", "m!(`{A}(1))"),
+    "wild_import_let": ("mod k {\n  pub fn {A}(v){ v + 100 }\n}\nuse k::*\n", "{ let w = {A}(2)\n m!(`(w + 0)) }"),
 }
 
 
@@ -48,7 +56,7 @@ def table_cells():
             for a in ("t", "u"):
                 pair = []
                 for b in ("t", "u"):
-                    src = (f"{defs.replace('{A}', a)}#stage(macro)\nfn m(c){{\n  {tmpl.replace('{B}', b)}\n}}\n#stage(main)\n"
+                    src = (f"{defs.replace('{A}', a)}#stage(macro)\n{'fn idc(x){ x }' + chr(10) if 'idc(' in tmpl else ''}fn m(c){{\n  {tmpl.replace('{B}', b)}\n}}\n#stage(main)\n"
                            f"fn dsp(){{\n  {use.replace('{A}', a)}\n}}\n")
                     pair.append(src)
                 out.append((f"{tn}/{un}/A={a}", pair[0], pair[1], a))
